@@ -5,10 +5,13 @@ use model::Report;
 use crate::common::Ctx;
 
 pub mod c01;
+pub mod c02;
 pub mod c03;
 pub mod c04;
 pub mod c05;
+pub mod c06;
 pub mod c07;
+pub mod mutgen;
 pub mod c08;
 pub mod c12;
 pub mod c13;
@@ -23,6 +26,7 @@ pub fn is_worker(what: &str) -> bool {
 pub fn run_worker(what: &str, ctx: &Ctx, extra: &[String]) {
     match what {
         "c14-cases" => c14::cases(ctx, extra),
+        "probe-worker" => crate::common::on_big_stack(|| probe(extra)),
         "c14-worker" => crate::common::on_big_stack(c14::worker),
         _ => {
             eprintln!("unknown worker {what}");
@@ -34,13 +38,42 @@ pub fn run_worker(what: &str, ctx: &Ctx, extra: &[String]) {
 pub fn run(what: &str, ctx: &Ctx, _extra: &[String]) -> Option<Report> {
     Some(match what {
         "C01" => c01::run(ctx),
+        "C02" => c02::run(ctx),
         "C03" => c03::run(ctx),
         "C04" => c04::run(ctx),
         "C05" => c05::run(ctx),
+        "C06" => c06::run(ctx),
         "C07" => c07::run(ctx),
         "C08" => c08::run(ctx),
         "C12" => c12::run(ctx),
         "C13" => c13::run(ctx),
         _ => return None,
     })
+}
+
+/// ad-hoc: hbsmon probe-worker <hash> <h/w,h/w,...> [counter]  -> keygen, sign, verify outcomes
+fn probe(extra: &[String]) {
+    use crate::libcall::{self, Cb, Out};
+    let alg = model::Alg::from_name(&extra[0]).expect("hash");
+    let lv: Vec<model::Level> = extra[1]
+        .split(',')
+        .map(|p| {
+            let mut it = p.split('/');
+            model::Level { h: it.next().unwrap().parse().unwrap(), w: it.next().unwrap().parse().unwrap() }
+        })
+        .collect();
+    let counter: u64 = extra.get(2).and_then(|s| s.parse().ok()).unwrap_or(0);
+    let seed = vec![7u8; alg.n()];
+    let kg = libcall::keygen(alg, &lv, &seed, None);
+    println!("keygen: {}", kg.describe());
+    let blob = model::hss::make_blob(counter, &lv, &seed);
+    println!("lifetime: {}", libcall::lifetime(alg, &blob).describe_val());
+    let rec = libcall::sign_bytes(alg, &blob, b"probe", Cb::Accept, None);
+    println!("sign: {} (callbacks: {})", rec.result.describe(), rec.cb_args.len());
+    if let (Out::Ok(sig), Out::Ok(k)) = (&rec.result, &kg) {
+        println!("signature length {}", sig.len());
+        println!("verify: {}", libcall::verify(alg, b"probe", sig, &k.vk, libcall::VerifyEntry::Bytes).describe());
+        let cfg = crate::common::lcfg(alg);
+        println!("model verify: {}", model::hss::verify(&cfg, b"probe", sig, &k.vk));
+    }
 }
